@@ -1,7 +1,10 @@
 """C13 - TCP framing.  Model: coq/Framing/Model.v; theorems: coq/Props/C13.v.
 
 Correspondence: real TcpConnection (fake socket/poller/clock) vs `check_case` evaluated with
-vm_compute; monitors: prefix/once/in-order delivery, disconnect on bad frame, no escaping exception.
+vm_compute; monitors: prefix/once/in-order delivery, disconnect on bad frame, no escaping exception,
+and per connection lifetime: nothing received before a disconnect is delivered after onDisconnected
+(in particular not on the connection a reconnecting callback opened), a new connection delivers
+exactly what is sent on it.
 """
 import json
 import os
@@ -492,7 +495,10 @@ def correspondence(ctx):
     corpus = corpus_seeds()
     seeds = corpus + [base + i for i in range(n) if base + i not in corpus]
     ctx.extra['rule'] = ('cases = random S->R pipe scenarios (sends with scripted partial sends/EAGAIN/zero/errors, fragmented reads, '
-                         'timeouts, injected bad frames: negative length, undecodable payload, the D12 replay frame); '
+                         'timeouts, injected bad frames: negative length, undecodable payload, the D12 replay frame) and, for seeds = 0,1 mod 5, '
+                         'reconnect scenarios (one connection through several lifetimes, each with its own stream: read bursts of whole frames + '
+                         'a partial frame / 1-3 header bytes ending in EOF, ECONNRESET or SO_ERROR, timeouts, failing sends, ERROR events, '
+                         're-entrant reconnect from onDisconnected or a later connect(), send() and polls while CONNECTING); '
                          'non-trivial = at least 2 frames in the pipe and at least one message delivered; distinct by seed')
     all_results = []
     step = 3000
@@ -506,7 +512,8 @@ def correspondence(ctx):
         ctx.samples.append({'case_seed': r['seed'], 'ops': r.get('meta', {}).get('ops'), 'frames': r.get('meta', {}).get('frames')})
     ctx.trusted += [
         'oracle: zlib.compress/pickle.dumps output bytes and the accept/reject verdict of pickle.loads(zlib.decompress(.)) are inputs of the model',
-        'modelled, not verified: socket, poller (fakes in harness/framing.py), CONNECTING state and encryption are outside the model',
+        'modelled, not verified: socket, poller (fakes in harness/framing.py: a fresh socket after connect() has nothing to recv, SO_ERROR 0), '
+        'connect() returning False and encryption are outside the model',
     ]
     ctx._c13_results = all_results
 
